@@ -396,3 +396,86 @@ pub fn header_checks(seed: u64, out: &mut Vec<DFinding>, probes: &mut dyn FnMut(
         Err(_) => out.push(DFinding { class: "header-error-panic", detail: format!("reporting the bad `recoverer` value of {:?} panicked", p) }),
     }
 }
+
+// ---- position of an error inside an action ------------------------------------------------------
+
+/// `CTParserBuilder` rejects an action that contains a `$` followed by text it does not know
+/// ("Unknown text following '$'") and says where: `Error at <path>:<line>:<col>`. The position
+/// must be that of the character after the offending `$`. Returns Some(true) if it is, Some(false)
+/// with a finding pushed otherwise; the known off-by-leading-blanks signature is reported through
+/// `known`.
+pub fn action_error_checks(seed: u64, dir: &std::path::Path, out: &mut Vec<DFinding>, known: &mut Vec<(&'static str, String)>, probes: &mut dyn FnMut(&'static str), queries: &mut u64) {
+    use lrpar::CTParserBuilder;
+    let mut r = Rng::new(seed ^ 0xac71);
+    let mut src = String::from("%grmtools{yacckind: Grmtools}\n");
+    for _ in 0..r.below(4) {
+        src.push('\n');
+    }
+    src.push_str("%start S\n%%\n");
+    for _ in 0..r.below(3) {
+        src.push('\n');
+    }
+    src.push_str("S -> u64:");
+    src.push_str(*r.pick(&[" ", "\n    ", "  "]));
+    src.push_str("'a' S");
+    src.push_str(*r.pick(&[" ", "\n      "]));
+    src.push('{');
+    let lead = *r.pick(&["", " ", "  ", "\n        ", " \t"]);
+    src.push_str(lead);
+    // a valid substitution or two first, possibly on a line of their own, then the bad one
+    let pre = *r.pick(&["", "$2 + ", "let _x = $span;\n        ", "é + $2 * "]);
+    src.push_str(pre);
+    let bad_at = src.len();
+    src.push_str("$oops");
+    src.push_str(*r.pick(&[" }", "}", "\n    }"]));
+    src.push_str("\n  | 'b' { 0 }\n  ;\n");
+    let p = src.as_str();
+    let _ = std::fs::create_dir_all(dir);
+    // the builders refuse a second build to the same path in one process: every call gets its own
+    static N: std::sync::atomic::AtomicU64 = std::sync::atomic::AtomicU64::new(0);
+    let k = N.fetch_add(1, std::sync::atomic::Ordering::SeqCst);
+    let gp = dir.join(format!("act{k}.y"));
+    let op = dir.join(format!("act{k}.y.rs"));
+    if std::fs::write(&gp, p).is_err() {
+        return;
+    }
+    *queries += 1;
+    let res = catch_unwind(AssertUnwindSafe(|| {
+        CTParserBuilder::<DefaultLexerTypes<u32>>::new().grammar_path(&gp).output_path(&op).show_warnings(false).build().map(|_| ()).map_err(|e| e.to_string())
+    }));
+    let _ = std::fs::remove_file(&gp);
+    let _ = std::fs::remove_file(&op);
+    let msg = match res {
+        Ok(Err(m)) => m,
+        Ok(Ok(())) => {
+            out.push(DFinding { class: "action-error-location", detail: format!("an action with `$oops` was accepted: {:?}", p) });
+            return;
+        }
+        Err(_) => {
+            out.push(DFinding { class: "action-error-panic", detail: format!("CTParserBuilder panicked on {:?}", p) });
+            return;
+        }
+    };
+    probes("action_errors_located");
+    // "Error at <path>:<line>:<col>"
+    let want_off = bad_at + 1;
+    let want = (ref_line(p, want_off), ref_col(p, want_off));
+    let got = msg.lines().find_map(|l| {
+        let rest = l.trim().strip_prefix("Error at ")?;
+        let mut it = rest.rsplitn(3, ':');
+        let col: usize = it.next()?.trim().parse().ok()?;
+        let line: usize = it.next()?.trim().parse().ok()?;
+        Some((line, col))
+    });
+    if got == Some(want) {
+        return;
+    }
+    // known signature: the position is too far left by exactly the whitespace that follows the
+    // opening brace (the recorded action span starts at the brace, the action text is trimmed)
+    let shifted = bad_at + 1 - lead.len();
+    if !lead.is_empty() && got == Some((ref_line(p, shifted), ref_col(p, shifted))) {
+        known.push(("action-span-ignores-blanks-after-brace", format!("`$oops` at {}:{} reported at {:?} ({} blank(s) after the brace); grammar {:?}", want.0, want.1, got, lead.len(), p)));
+        return;
+    }
+    out.push(DFinding { class: "action-error-location", detail: format!("the character after the bad `$` is at line {} column {}, the error says {:?}; message {:?}; grammar {:?}", want.0, want.1, got, msg, p) });
+}
